@@ -42,7 +42,7 @@ pub fn run_socket_worker(
     statistics: CachePaddedArc<IpVersionStatistics<SocketWorkerStatistics>>,
     statistics_sender: Sender<StatisticsMessage>,
     validator: ConnectionValidator,
-    priv_droppers: Vec<PrivilegeDropper>,
+    priv_dropper: PrivilegeDropper,
 ) -> anyhow::Result<()> {
     #[cfg(all(target_os = "linux", feature = "io-uring"))]
     if config.network.use_io_uring {
@@ -56,7 +56,7 @@ pub fn run_socket_worker(
             statistics,
             statistics_sender,
             validator,
-            priv_droppers,
+            priv_dropper,
         );
     }
 
@@ -66,6 +66,6 @@ pub fn run_socket_worker(
         statistics,
         statistics_sender,
         validator,
-        priv_droppers,
+        priv_dropper,
     )
 }
